@@ -368,6 +368,13 @@ def reclaim_obs(prefix):
                          ("attempt_reclaim", ["_mi_segment_attempt_reclaim"]))]
 
 
+def segment_reclaim_ob(prefix):
+    return sg_ob(prefix + ".segment_reclaim", "h_segment_reclaim", unwind=8, unwindset=[], std_checks=False, cost=20, cbmc_flags=["--max-field-sensitivity-array-size", "520"],
+                 replace={"mi_segment_page_clear": "stub_page_clear", "mi_segment_span_free_coalesce": "stub_span_free_coalesce", "mi_segment_free": "stub_segment_free"},
+                 funcs=["mi_segment_reclaim", "mi_slices_start_iterate", "mi_page_set_heap", "mi_slice_is_used", "mi_page_all_free"],
+                 bounds="segment of 4 slices: info slice + page of 1 slice + page of 2 slices, each used or free, used counts 0..4")
+
+
 def c15():
     return reclaim_obs("C15") + [ar_ob("C15.suitable", "h_suitable", funcs=["mi_arena_id_is_suitable", "_mi_arena_memid_is_suitable"], cost=5, bounds="all id/request/exclusive combinations"),
             ] + [ar_ob("C15.arena_specific.req%d" % r, "h_arena_specific", defines=["REQ=%d" % r], replace={"mi_arena_try_alloc_at": "stub_try_alloc_at"}, cost=100,
@@ -456,6 +463,9 @@ def c01():
     obs += page_obs("C01", [E_MALLOC, E_FREE, E_COLLECT, E_EXTEND], sizes=((1024, 3),), flavours=("release", "secure"), tier="extended")
     obs += page_obs("C01", [E_FREE, E_COLLECT, E_EXTEND], sizes=((16, 6), (80, 4)), flavours=("secure",), tier="extended")
     obs += queue_obs("C01")
+    for b in (1, 2, 13, 33, 48):
+        obs.append(O("C01.page_start.bin%02d" % b, "c16_arith.c", "h_page_start", defines=["BIN=%d" % b], funcs=["_mi_segment_page_start_from_slice"], cost=30,
+                     bounds="real bin %d: the page area (start, size) lies exactly inside its span for every slice index" % b))
     return obs
 
 
@@ -660,7 +670,7 @@ def queue_obs(prefix, which=("absorb", "fullmoves")):
                             funcs=["mi_heap_absorb", "_mi_page_queue_append", "_mi_page_use_delayed_free", "_mi_page_try_use_delayed_free", "mi_heap_queue_first_update", "mi_heap_reset_pages"],
                             bounds="3 pages (64-byte class) of the deleted heap, in the full queue: mask %s; backing heap pages: mask %s; flags symbolic" % (bin(af), bin(bh))))
     if "fullmoves" in which:
-        for af, k in ((0b001, 0), (0b010, 0), (0b110, 1), (0b000, 2), (0b111, 1)):
+        for af, k in ((0b001, 0), (0b010, 0), (0b110, 1), (0b000, 2), (0b111, 1), (0b110, 0), (0b011, 2)):   # the last two: the size queue becomes empty
             obs.append(q_ob(prefix + ".full_queue_moves.a%d_k%d" % (af, k), "h_fullmoves", defines=["AFULL=%d" % af, "BHAS=0", "KPAGE=%d" % k], cost=40,
                             funcs=["_mi_page_unfull", "mi_page_to_full", "mi_page_queue_enqueue_from_ex", "mi_page_set_in_full", "mi_heap_page_queue_of", "mi_heap_queue_first_update", "_mi_page_free_collect"],
                             bounds="3 pages (64-byte class), full-queue mask %s, page %d moved to/from the full queue; flags symbolic" % (bin(af), k)))
@@ -679,8 +689,21 @@ def heap_by_tag_ob(prefix):
     return q_ob(prefix + ".heap_by_tag", "h_heap_by_tag", cost=5, funcs=["_mi_heap_by_tag"], bounds="3 heaps of a thread with symbolic tags / no_reclaim flags (backing heap last), any starting heap and tag")
 
 
+def heap_new_ob(prefix):
+    return q_ob(prefix + ".heap_new", "h_heap_new", defines=["AFULL=0", "BHAS=0"], cost=10, replace={"mi_heap_malloc": "stub_heap_malloc", "mi_malloc": "stub_malloc_default", "mi_heap_get_default": "stub_heap_get_default"},
+                funcs=["mi_heap_new", "mi_heap_new_in_arena", "mi_heap_new_ex", "mi_heap_get_backing", "_mi_heap_init"], bounds="default heap different from the backing heap; descriptor allocation may fail")
+
+
+def collect_abandon_ob(prefix):
+    return q_ob(prefix + ".collect_abandon", "h_collect_abandon", defines=["AFULL=5", "BHAS=0"], cost=10,
+                unwindset=["mi_heap_queue_first_update.1:140", "mi_heap_queue_first_update.0:6", "mi_heap_visit_pages.1:80", "mi_heap_visit_pages.0:8", "_mi_heap_collect_retired.0:80", "_mi_memcpy_aligned.0:4"],
+                replace={"_mi_heap_delayed_free_all": "stub_delayed_free_all_check", "_mi_heap_delayed_free_partial": "stub_delayed_free_partial", "mi_heap_page_collect": "stub_heap_page_collect"},
+                funcs=["_mi_heap_collect_abandon", "mi_heap_collect_ex", "mi_heap_visit_pages", "mi_heap_page_never_delayed_free", "_mi_page_use_delayed_free", "_mi_heap_collect_retired"],
+                bounds="heap with 3 pages (size queue and full queue), thread-exit collect")
+
+
 def c10():
-    return queue_obs("C10") + [heap_by_tag_ob("C10")]
+    return queue_obs("C10") + [heap_by_tag_ob("C10"), heap_new_ob("C10")]
 
 
 PROPS["C10"] = dict(
@@ -739,7 +762,7 @@ E_FREE_DELAYED = ("h_free_delayed", ["_mi_free_delayed_block", "_mi_page_try_use
 
 
 def c08():
-    return lists_obs("C08") + page_obs("C08", [E_COLLECT, E_FREE_DELAYED], sizes=((32, 5),), flavours=("release",)) + queue_obs("C08", which=("fullmoves",))
+    return lists_obs("C08") + page_obs("C08", [E_COLLECT, E_FREE_DELAYED], sizes=((32, 5),), flavours=("release",)) + queue_obs("C08") + [segment_reclaim_ob("C08")]
 
 
 PROPS["C08"] = dict(
@@ -772,6 +795,8 @@ def c09():
     obs.append(abandoned_visit_ob("C09"))
     obs += force_abandon_obs("C09")
     obs.append(heap_by_tag_ob("C09"))
+    obs.append(collect_abandon_ob("C09"))
+    obs.append(segment_reclaim_ob("C09"))
     return obs
 
 
@@ -832,8 +857,13 @@ def seg_shape_obs(prefix, which):
     return obs
 
 
+def segment_alloc_commit_ob(prefix):
+    return sg_ob(prefix + ".segment_alloc_commit", "h_segment_alloc_commit", replace={"mi_segment_os_alloc": "stub_segment_os_alloc"}, unwind=8, unwindset=[], std_checks=False, cost=10,
+                 funcs=["mi_segment_alloc"], bounds="any required size (0 = normal segment, > 0 = huge), any huge alignment, options symbolic")
+
+
 def c13():
-    return seg_obs("C13", ["commit_mask", "next_run"]) + seg_shape_obs("C13", ["seg_commit", "seg_purge", "try_purge"]) + [
+    return [segment_alloc_commit_ob("C13")] + seg_obs("C13", ["commit_mask", "next_run"]) + seg_shape_obs("C13", ["seg_commit", "seg_purge", "try_purge"]) + [
         arena_free_ob("C13"), arena_alloc_ob("C13"),
         os_ob("C13.page_align", "h_page_align", funcs=["mi_os_page_align_areax", "_mi_align_up", "_mi_align_down"], cost=20, bounds="any address and size"),
         os_ob("C13.os_purge", "h_purge", funcs=["_mi_os_purge_ex", "mi_os_decommit_ex", "_mi_os_reset", "_mi_os_commit_ex"], cost=20, bounds="any range, decommit or reset mode, any delay")] + arena_expiry_ob("C13")[:2]
@@ -849,7 +879,7 @@ PROPS["C13"] = dict(
 
 
 def c07():
-    return os_roundtrip_obs("C07") + seg_shape_obs("C07", ["seg_commit"]) + [o for o in td_obs("C07") if "td_zalloc.c0" in o["id"]] + [arena_alloc_ob("C07"),
+    return os_roundtrip_obs("C07") + seg_shape_obs("C07", ["seg_commit"]) + [o for o in td_obs("C07") if "td_zalloc.c0" in o["id"]] + [arena_alloc_ob("C07"), arena_free_ob("C07"),
         os_ob("C07.os_purge_commit", "h_purge", funcs=["_mi_os_commit_ex", "_mi_os_purge_ex"], cost=20, bounds="commit/purge with refusing OS")]
 
 
